@@ -25,6 +25,7 @@ type C13Decl struct {
 	Comment  []string `json:"comment"` // expected documentation lines (nil = none)
 	UseOff   int      `json:"useOff"`  // byte offset of a use of the name (hover position)
 	Alphabet string   `json:"alphabet"`
+	AliasOf  string   `json:"aliasOf,omitempty"` // alias: the expression it is initialised with
 }
 
 type C13Case struct {
@@ -54,7 +55,10 @@ func genC13(t *rapid.T) C13Case {
 	needTable := false
 	for i := 0; i < n; i++ {
 		d := C13Decl{Name: fmt.Sprintf("nm%d", i+1)}
-		d.Kind = rapid.SampledFrom([]string{"local", "global", "gfunc", "lfunc", "member-func", "member-method", "member-var"}).Draw(t, "kind")
+		d.Kind = rapid.SampledFrom([]string{"local", "global", "gfunc", "lfunc", "member-func", "member-method", "member-var", "alias"}).Draw(t, "kind")
+		if d.Kind == "alias" && i == 0 {
+			d.Kind = "local"
+		}
 		d.Alphabet = rapid.SampledFrom(alphabets).Draw(t, "alphabet")
 		if strings.HasPrefix(d.Kind, "member-") && !needTable {
 			needTable = true
@@ -84,6 +88,13 @@ func genC13(t *rapid.T) C13Case {
 			b.WriteString("\n")
 		}
 		switch d.Kind {
+		case "alias":
+			// initialised with a plain reference to an earlier declaration
+			tgt := c.Decls[rapid.IntRange(0, i-1).Draw(t, "aliasOf")]
+			d.AliasOf = tgt.Name
+			if strings.HasPrefix(tgt.Kind, "member-") {
+				d.AliasOf = "tbl." + tgt.Name
+			}
 		case "local", "global", "member-var":
 			if rapid.Bool().Draw(t, "strLit") {
 				d.Literal = fmt.Sprintf("\"v%d\"", rapid.IntRange(0, 99).Draw(t, "sval"))
@@ -99,6 +110,9 @@ func genC13(t *rapid.T) C13Case {
 		ps := strings.Join(d.Params, ", ")
 		line := ""
 		switch d.Kind {
+		case "alias":
+			d.Local = true
+			line = "local " + d.Name + " = " + d.AliasOf
 		case "local":
 			d.Local = true
 			line = "local " + d.Name + " = " + d.Literal
@@ -220,7 +234,13 @@ func checkC13(c C13Case, env *Env) *Violation {
 			}
 			got = append(got, ln)
 		}
-		if strings.Join(got, "\n") != strings.Join(d.Comment, "\n") {
+		if d.Kind == "alias" && len(d.Comment) == 0 {
+			// an uncommented alias: the server shows the documentation of what it refers to; the
+			// property speaks of the comment attached to the declaration only — don't care
+			env.Stats.mu.Lock()
+			env.Stats.DontCare++
+			env.Stats.mu.Unlock()
+		} else if strings.Join(got, "\n") != strings.Join(d.Comment, "\n") {
 			return violf("doc", "hover on %s %q shows the documentation %q, expected the attached comment %q (byte for byte)\n%s", d.Kind, d.Name, got, d.Comment, c.Text)
 		}
 		env.Stats.Class("decl-" + d.Kind)
